@@ -204,7 +204,7 @@ impl Agg {
 
 fn replay_doc(sc: &Scenario, cfg: &ExploreCfg, tr: &Transition) -> Value {
     json!({
-        "engine": "seqmc", "scenario": sc.json(), "mode": mode_name(cfg.mode), "writer_stops_at": cfg.end, "deviation_bound": cfg.dev_bound,
+        "engine": "seqmc", "scenario": sc.json(), "mode": mode_name(cfg.mode), "writer_stops_at": cfg.end, "deviation_bound": cfg.dev_bound, "client_monotonic_clock_ns": cfg.client_mono_ns.map(|x| x.to_string()),
         "attach_at": tr.attach, "calls": tr.path,
         "observed": {"result": format!("{:?}", tr.result), "returned_words": tr.returned.as_ref().map(words), "cache_before_words": words(&tr.before.rec), "cached_generation_before": tr.before.gen,
                      "generations_seen": tr.stats.gens_seen, "loads": tr.stats.loads, "record_copies": tr.stats.data_reads},
@@ -274,7 +274,7 @@ fn judge(prop: Prop, w: &Work, cfg: &ExploreCfg, tr: &Transition, agg: &mut Agg)
         // freshness: if some idle writer position explains every load of the call, the call must
         // return the publication that was the latest one there
         if cfg.mode == Mode::Sc && !tr.stats.reads_overflow {
-            if let Some(q) = w.trace.idle_point_explaining(&tr.stats.reads, cfg.end) {
+            if let Some(q) = w.trace.idle_point_explaining(&tr.stats.reads, tr.stats.entry_pos, cfg.end) {
                 let latest = w.trace.latest_completed_at(q);
                 let which = if w.sc.incs.len() > 1 && prop == Prop::C04 { "stale-after-restart" } else { "stale-while-idle" };
                 let latest_rec = published.iter().find(|(k, _)| *k == latest).map(|(_, r)| *r);
@@ -309,6 +309,9 @@ struct Plan {
     stop_points: bool,
     /// run calls that spin on a dead writer in full (once per signature) and continue from the state they leave
     full_spin: bool,
+    /// the client's monotonic clock reads 0.4 s after the as-of of the first record a reader can hold (so that the
+    /// record it caches is "fresh"); otherwise the real clock, for which every record of the scenarios is ancient
+    fresh_clock: bool,
     label: &'static str,
 }
 
@@ -337,7 +340,13 @@ fn run_plan(ctx: &Ctx, prop: Prop, plan: &Plan, deadline: f64, agg: &mut Agg) {
         let w = &plan.works[wi];
         let dir = acc.1.clone();
         let mut local = Agg::new();
+        let fresh: Option<i128> = if plan.fresh_clock {
+            Some(match w.sc.init { Init::Absent => 1_400_000_001, _ => 1_000_400_001_000 })
+        } else {
+            None
+        };
         let cfg = ExploreCfg {
+            client_mono_ns: fresh,
             mode: plan.mode,
             dev_bound: plan.dev_bound,
             cut_after: if plan.full_spin { 3000 } else { 600 },
@@ -410,7 +419,7 @@ fn least_privilege_phase(ctx: &Ctx, deadline: f64, agg: &mut Agg) -> Value {
         let base = ctx.scratch();
         let dir0 = thread_dir(&base);
         let multi = multi_incarnation(Tier::Quick, 2, &dir0);
-        let plan = Plan { works: record_all(multi, &base), mode: Mode::Sc, dev_bound: u32::MAX, stop_points: false, full_spin: false, label: "least privilege" };
+        let plan = Plan { works: record_all(multi, &base), mode: Mode::Sc, dev_bound: u32::MAX, stop_points: false, full_spin: false, fresh_clock: false, label: "least privilege" };
         let mut a = Agg::new();
         run_plan(ctx, Prop::C04, &plan, deadline, &mut a);
         let ws: Vec<&Work> = plan.works.iter().collect();
@@ -471,6 +480,7 @@ fn replay_doc_run(ctx: &Ctx, doc: &Value) -> Result<String, String> {
     let trace = record_trace(&sc, &dir)?;
     let mode = if doc["mode"] == "SC" { Mode::Sc } else { Mode::Ra };
     let cfg = ExploreCfg {
+        client_mono_ns: doc["client_monotonic_clock_ns"].as_str().and_then(|x| x.parse().ok()),
         mode,
         dev_bound: doc["deviation_bound"].as_u64().map(|d| d as u32).unwrap_or(u32::MAX),
         cut_after: u64::MAX,
@@ -670,38 +680,41 @@ fn run_reader_prop(ctx: &Ctx, prop: Prop, lit: (usize, u64)) -> i32 {
     let unb = u32::MAX;
     match prop {
         Prop::C02 | Prop::C03 => {
-            plans.push(Plan { works: record_all(single_incarnation(tier, 2, &[1, 2]), &base), mode: Mode::Ra, dev_bound: unb, stop_points: false, full_spin: false, label: "RA, K<=2 updates, 2 record chunks, all read-from choices" });
-            plans.push(Plan { works: record_all(single_incarnation(tier, 7, &[1, 2, 3]), &base), mode: Mode::Ra, dev_bound: tier.pick(3, 5), stop_points: false, full_spin: false, label: "RA, K<=3 updates, 7 record words, bounded stale reads" });
+            plans.push(Plan { works: record_all(single_incarnation(tier, 2, &[1, 2]), &base), mode: Mode::Ra, dev_bound: unb, stop_points: false, full_spin: false, fresh_clock: false, label: "RA, K<=2 updates, 2 record chunks, all read-from choices" });
+            plans.push(Plan { works: record_all(single_incarnation(tier, 7, &[1, 2, 3]), &base), mode: Mode::Ra, dev_bound: tier.pick(3, 5), stop_points: false, full_spin: false, fresh_clock: false, label: "RA, K<=3 updates, 7 record words, bounded stale reads" });
             // publications that differ from their predecessor in the status word only (what the daemon really
             // publishes while the bound is frozen): a reader that short-cuts on "nothing I look at changed"
             // would go unnoticed with records that differ everywhere
             let fam1: Vec<Scenario> = single_incarnation(tier, 2, &[1, 2]).into_iter().map(|mut s| { s.family = 1; s }).collect();
-            plans.push(Plan { works: record_all(fam1.clone(), &base), mode: Mode::Sc, dev_bound: unb, stop_points: false, full_spin: false, label: "SC, K<=2 updates that change the status word only, all interleavings" });
-            plans.push(Plan { works: record_all(fam1, &base), mode: Mode::Ra, dev_bound: tier.pick(3, 5), stop_points: false, full_spin: false, label: "RA, K<=2 updates that change the status word only, bounded stale reads" });
+            plans.push(Plan { works: record_all(fam1.clone(), &base), mode: Mode::Sc, dev_bound: unb, stop_points: false, full_spin: false, fresh_clock: false, label: "SC, K<=2 updates that change the status word only, all interleavings" });
+            plans.push(Plan { works: record_all(fam1, &base), mode: Mode::Ra, dev_bound: tier.pick(3, 5), stop_points: false, full_spin: false, fresh_clock: false, label: "RA, K<=2 updates that change the status word only, bounded stale reads" });
             for (fam, what_sc, what_ra) in [
                 (2u8, "SC, K<=3 updates alternating a real record with the all-zero placeholder, all interleavings", "RA, same records, bounded stale reads"),
                 (3u8, "SC, K<=3 updates republishing an identical record, all interleavings", "RA, same records, bounded stale reads"),
             ] {
                 let scs: Vec<Scenario> = single_incarnation(Tier::Quick, 2, &[2, 3]).into_iter().map(|mut s| { s.family = fam; s }).collect();
-                plans.push(Plan { works: record_all(scs.clone(), &base), mode: Mode::Sc, dev_bound: unb, stop_points: false, full_spin: false, label: what_sc });
-                plans.push(Plan { works: record_all(scs, &base), mode: Mode::Ra, dev_bound: tier.pick(2, 4), stop_points: false, full_spin: false, label: what_ra });
+                plans.push(Plan { works: record_all(scs.clone(), &base), mode: Mode::Sc, dev_bound: unb, stop_points: false, full_spin: false, fresh_clock: false, label: what_sc });
+                plans.push(Plan { works: record_all(scs, &base), mode: Mode::Ra, dev_bound: tier.pick(2, 4), stop_points: false, full_spin: false, fresh_clock: false, label: what_ra });
             }
+            // the client's own clock: records whose as-of is a fraction of a second ago (a reader that decides by the age of
+            // what it holds takes another path than with the ancient records of the other plans)
+            plans.push(Plan { works: record_all(single_incarnation(Tier::Quick, 2, &[2]), &base), mode: Mode::Sc, dev_bound: unb, stop_points: false, full_spin: false, fresh_clock: true, label: "SC, K=2 updates, the client's monotonic clock 0.4 s after the first record's as-of" });
             if prop == Prop::C02 {
-                plans.push(Plan { works: record_all(single_incarnation(tier, 2, &[1, 2]), &base), mode: Mode::Ra, dev_bound: tier.pick(2, 4), stop_points: true, full_spin: true, label: "RA, writer stops for ever at every point (calls that exhaust their retries are run in full), bounded stale reads" });
+                plans.push(Plan { works: record_all(single_incarnation(tier, 2, &[1, 2]), &base), mode: Mode::Ra, dev_bound: tier.pick(2, 4), stop_points: true, full_spin: true, fresh_clock: false, label: "RA, writer stops for ever at every point (calls that exhaust their retries are run in full), bounded stale reads" });
             }
             if prop == Prop::C03 {
-                plans.push(Plan { works: record_all(single_incarnation(tier, 2, &[1, 2, 3]), &base), mode: Mode::Sc, dev_bound: unb, stop_points: false, full_spin: false, label: "SC, K<=3 updates, 2 record chunks, all interleavings" });
+                plans.push(Plan { works: record_all(single_incarnation(tier, 2, &[1, 2, 3]), &base), mode: Mode::Sc, dev_bound: unb, stop_points: false, full_spin: false, fresh_clock: false, label: "SC, K<=3 updates, 2 record chunks, all interleavings" });
             }
             if tier == Tier::Thorough {
-                plans.push(Plan { works: record_all(single_incarnation(tier, 2, &[3]), &base), mode: Mode::Ra, dev_bound: unb, stop_points: false, full_spin: false, label: "RA, K=3 updates, 2 record chunks, all read-from choices" });
-                plans.push(Plan { works: record_all(single_incarnation(tier, 4, &[2]), &base), mode: Mode::Ra, dev_bound: unb, stop_points: false, full_spin: false, label: "RA, K=2 updates, 4 record chunks, all read-from choices" });
+                plans.push(Plan { works: record_all(single_incarnation(tier, 2, &[3]), &base), mode: Mode::Ra, dev_bound: unb, stop_points: false, full_spin: false, fresh_clock: false, label: "RA, K=3 updates, 2 record chunks, all read-from choices" });
+                plans.push(Plan { works: record_all(single_incarnation(tier, 4, &[2]), &base), mode: Mode::Ra, dev_bound: unb, stop_points: false, full_spin: false, fresh_clock: false, label: "RA, K=2 updates, 4 record chunks, all read-from choices" });
             }
         }
         Prop::C04 => {
             let multi = multi_incarnation(tier, 2, &dir0);
-            plans.push(Plan { works: record_all(multi.clone(), &base), mode: Mode::Sc, dev_bound: unb, stop_points: false, full_spin: false, label: "SC, crash at every point of the first incarnation + restart, all interleavings" });
-            plans.push(Plan { works: record_all(multi, &base), mode: Mode::Ra, dev_bound: tier.pick(3, 5), stop_points: false, full_spin: false, label: "RA, crash at every point + restart, bounded stale reads" });
-            plans.push(Plan { works: record_all(single_incarnation(tier, 2, &[1, 2]), &base), mode: Mode::Sc, dev_bound: unb, stop_points: true, full_spin: true, label: "SC, writer dies for good at every point (calls that exhaust their retries are run in full)" });
+            plans.push(Plan { works: record_all(multi.clone(), &base), mode: Mode::Sc, dev_bound: unb, stop_points: false, full_spin: false, fresh_clock: false, label: "SC, crash at every point of the first incarnation + restart, all interleavings" });
+            plans.push(Plan { works: record_all(multi, &base), mode: Mode::Ra, dev_bound: tier.pick(3, 5), stop_points: false, full_spin: false, fresh_clock: false, label: "RA, crash at every point + restart, bounded stale reads" });
+            plans.push(Plan { works: record_all(single_incarnation(tier, 2, &[1, 2]), &base), mode: Mode::Sc, dev_bound: unb, stop_points: true, full_spin: true, fresh_clock: false, label: "SC, writer dies for good at every point (calls that exhaust their retries are run in full)" });
             // what the file's time stamps say is no part of the protocol: a daemon that was up for 40 minutes leaves a
             // file "last modified" 40 minutes ago (stores through the mapping do not move st_mtime), a stepped wall
             // clock leaves one older than the boot or from the future. Restarts and attaches with such stamps.
@@ -714,13 +727,14 @@ fn run_reader_prop(ctx: &Ctx, prop: Prop, lit: (usize, u64)) -> i32 {
                     }
                 }
             }
-            plans.push(Plan { works: record_all(aged, &base), mode: Mode::Sc, dev_bound: unb, stop_points: false, full_spin: false, label: "SC, restart after a clean exit / a crash mid-update on a segment file whose time stamps are 40 min old, from 2001, or 1 h ahead, or whose mode is 0664 / 0666" });
+            plans.push(Plan { works: record_all(aged, &base), mode: Mode::Sc, dev_bound: unb, stop_points: false, full_spin: false, fresh_clock: false, label: "SC, restart after a clean exit / a crash mid-update on a segment file whose time stamps are 40 min old, from 2001, or 1 h ahead, or whose mode is 0664 / 0666" });
         }
         Prop::C18 => {
-            plans.push(Plan { works: record_all(single_incarnation(tier, 2, &[1, 2]), &base), mode: Mode::Ra, dev_bound: tier.pick(2, 4), stop_points: true, full_spin: true, label: "RA, writer stops for ever at every point, bounded stale reads" });
-            plans.push(Plan { works: record_all(single_incarnation(tier, 2, &[1, 2]), &base), mode: Mode::Sc, dev_bound: unb, stop_points: true, full_spin: true, label: "SC, writer stops for ever at every point, all interleavings" });
+            plans.push(Plan { works: record_all(single_incarnation(tier, 2, &[1, 2]), &base), mode: Mode::Ra, dev_bound: tier.pick(2, 4), stop_points: true, full_spin: true, fresh_clock: false, label: "RA, writer stops for ever at every point, bounded stale reads" });
+            plans.push(Plan { works: record_all(single_incarnation(tier, 2, &[1, 2]), &base), mode: Mode::Sc, dev_bound: unb, stop_points: true, full_spin: true, fresh_clock: false, label: "SC, writer stops for ever at every point, all interleavings" });
+            plans.push(Plan { works: record_all(single_incarnation(Tier::Quick, 2, &[2]), &base), mode: Mode::Sc, dev_bound: unb, stop_points: true, full_spin: true, fresh_clock: true, label: "SC, writer stops for ever at every point, the client's monotonic clock 0.4 s after the first record's as-of" });
             let rep: Vec<Scenario> = single_incarnation(Tier::Quick, 2, tier.pick(&[2][..], &[2, 3][..])).into_iter().filter(|s| tier == Tier::Thorough || matches!(s.init, Init::Absent | Init::Valid(2))).map(|mut s| { s.family = 3; s }).collect();
-            plans.push(Plan { works: record_all(rep, &base), mode: Mode::Sc, dev_bound: unb, stop_points: true, full_spin: true, label: "SC, an identical record republished, writer stops for ever at every point" });
+            plans.push(Plan { works: record_all(rep, &base), mode: Mode::Sc, dev_bound: unb, stop_points: true, full_spin: true, fresh_clock: false, label: "SC, an identical record republished, writer stops for ever at every point" });
         }
     }
     let mut agg = Agg::new();
